@@ -14,7 +14,7 @@ INFO_RE = re.compile(r"^info depth (\d+)(?: seldepth (\d+))? nodes (\d+) (?:time
 
 def run(ctx):
     prop = "C14"
-    gate, err = SP.prepare(prop, extra_targets=B.MODEL_TARGETS)
+    gate, err = SP.prepare(prop, extra_targets=B.MODEL_TARGETS + ["props/ChessInstances.vo"])
     if err:
         return err
     violations, cov = [], {"samples": []}
